@@ -12,10 +12,12 @@ What the code really does (and the model mirrors):
 * `setQuadrantSegments` stores **any** `int`; the generator uses `max(q, 1)` for the fillet quantum, but tests the
   *raw* value `q >= 8` (and the raw join value `== JOIN_ROUND`) to pick the closing-segment factor 80 instead of 1.
   `OffsetCurve` replaces `q < 8` by 8.
-* cap / join styles are C `int`s cast to the enum after the single test `style > 3 → IllegalArgumentException`.
-  There is **no lower test**: 0 and negative values are stored.  The generator then compares with the three
-  legal constants: a join that is neither MITRE(2) nor BEVEL(3) behaves as ROUND; a cap that is none of 1,2,3
-  adds *no cap vertices at all* (`switch` without default) and gives an empty curve for points.
+* cap / join styles are C `int`s cast to the enum after the test `style < 1 || style > 3 → IllegalArgumentException`
+  (the lower test was added by /repo commit 1591a29d6 "fix: C API must reject buffer join / end-cap styles below 1";
+  before it 0 and negative values were stored and `GEOSBufferWithStyle(line, d, 8, /*cap*/0, 1, 5)` returned POLYGON
+  EMPTY).  The generator compares with the three legal constants: a join that is neither MITRE(2) nor BEVEL(3) behaves
+  as ROUND; a cap that is none of 1,2,3 would add *no cap vertices at all* (`switch` without default) and give an empty
+  curve for points — `effJoin` / `effCap` keep modelling that, `params_total` shows it is unreachable through the C API.
 * the mitre limit is stored unchecked (NaN, negative, infinite included).
 * `setSingleSided(ss != 0)`; `GEOSSingleSidedBuffer` forces `CAP_FLAT`, `leftSide != 0`.
 Core Lean only.
@@ -37,8 +39,8 @@ def Config.default : Config := {}
 abbrev Outcome := Option Config
 
 def setQuadrantSegments (c : Config) (q : Int) : Outcome := some { c with quadSegs := q }
-def setEndCapStyle (c : Config) (s : Int) : Outcome := if s > 3 then none else some { c with endCap := s }
-def setJoinStyle (c : Config) (s : Int) : Outcome := if s > 3 then none else some { c with join := s }
+def setEndCapStyle (c : Config) (s : Int) : Outcome := if s < 1 ∨ s > 3 then none else some { c with endCap := s }
+def setJoinStyle (c : Config) (s : Int) : Outcome := if s < 1 ∨ s > 3 then none else some { c with join := s }
 def setMitreLimit (c : Config) (m : UInt64) : Outcome := some { c with mitre := m }
 def setSingleSided (c : Config) (ss : Int) : Outcome := some { c with singleSided := ss != 0 }
 
@@ -77,14 +79,14 @@ def Entry.config : Entry → Outcome
   | .buffer q => some { Config.default with quadSegs := q }           -- Geometry::buffer(d, q): CAP_ROUND
   | .withStyle q cap join m =>
     -- order of the tests in GEOSBufferWithStyle_r
-    if cap > 3 then none else if join > 3 then none
+    if cap < 1 ∨ cap > 3 then none else if join < 1 ∨ join > 3 then none
     else some { quadSegs := q, endCap := cap, join := join, mitre := m, singleSided := false }
   | .withParams c => some c
   | .offsetCurve q join m =>
-    if join > 3 then none
+    if join < 1 ∨ join > 3 then none
     else some { quadSegs := if q < 8 then 8 else q, endCap := 1, join := join, mitre := m, singleSided := false }
   | .singleSidedBuffer q join m _ =>
-    if join > 3 then none
+    if join < 1 ∨ join > 3 then none
     else some { quadSegs := q, endCap := 2, join := join, mitre := m, singleSided := false }
 
 /-- which side `GEOSSingleSidedBuffer` offsets -/
